@@ -28,6 +28,17 @@ def run_text(case):
     return obs(w)
 
 
+def run_textseq(case):
+    """one TextWidget object rendered at several widths in turn"""
+    w = RW.TextWidget(case["text"]); out = []
+    for width in case["widths"]:
+        try:
+            w.render(width); out.append(obs(w))
+        except Exception as e:
+            out.append({"err": err_name(e)})
+    return out
+
+
 def run_wrap(case):
     tw = textwrap.TextWrapper(width=case["w"])
     chunks = tw._split(tw._munge_whitespace(case["text"]))
@@ -168,7 +179,7 @@ def run_paging(case):
     return events
 
 
-RUN = {"text": run_text, "wrap": run_wrap, "int": run_int, "draw": run_draw, "write": run_write,
+RUN = {"textseq": run_textseq, "text": run_text, "wrap": run_wrap, "int": run_int, "draw": run_draw, "write": run_write,
        "tree": run_tree, "key": run_key, "prompt": run_prompt, "paging": run_paging}
 
 
